@@ -82,3 +82,16 @@ package rest
 //@ func (ng *engine) signatureVerifier closure 2
 //@   property C18
 //@   call LimitContentSecurityHandler#*: assert arg_decrypters == decrypters && arg_tolerance == signature.Expiry && arg_strict == signature.Strict && arg_limitBytes == ng.conf.MaxBytes
+
+// C09 WithPrefix: every route of the group gets the prefix joined in front of its own path, method and handler unchanged,
+// same order - built in a slice of its own: the slice the caller passed to AddRoutes (which may be registered again, under
+// another prefix or none) is not written
+//@ func WithPrefix closure 0
+//@   property C09
+//@   requires r != nil
+//@   loop 0: modifies nothing
+//@   loop 0: invariant len(routes) == idx && forall(i.(int), implies(0 <= i && i < idx, routes[i].Path == path.Join(group, r.routes[i].Path) && routes[i].Method == r.routes[i].Method && routes[i].Handler == r.routes[i].Handler))
+//@   ensures len(r.routes) == old(len(r.routes))
+//@   ensures forall(i.(int), implies(0 <= i && i < len(r.routes), r.routes[i].Path == path.Join(group, old(r.routes)[i].Path) && r.routes[i].Method == old(r.routes)[i].Method && r.routes[i].Handler == old(r.routes)[i].Handler))
+//@   modifies r.routes
+//@   allocates
